@@ -7,7 +7,7 @@ and checked to be symmetric means.
 """
 import ast
 import sympy as sp
-from ..core import AnalysisError, norm, dotted, calls_in, walk_no_nested, enclosing_stmt
+from ..core import AnalysisError, norm, dotted, calls_in, walk_no_nested, enclosing_stmt, parent
 from ..alg import Sym, is_zero, Unsupported
 from ..flow import lexically_inside, Flow
 
@@ -240,12 +240,27 @@ def rule_shapes(ctx):
         raise AnalysisError("quantile_score: the reshape of the estimates to (n, k) was not found")
     rst = enclosing_stmt(rs_tau[0])
     guards = []
-    for st in rflow.stmts:
-        if isinstance(st, ast.If) and any(isinstance(x, ast.Raise) and x.exc is not None and "ValueError" in norm(x.exc) for x in st.body) \
-                and ("%s.shape" % ytau in norm(st.test) or "np.shape(%s)" % ytau in norm(st.test)) \
-                and any(isinstance(c_, ast.Compare) and isinstance(c_.ops[0], ast.NotEq) for c_ in ast.walk(st.test)):
-            if all(rflow.cfg.dominated_by(n_, set(rflow.cfg.nodes(st))) for n_ in rflow.cfg.nodes(rst)):
-                guards.append(st)
+    from ..flow import guard_chain
+    for rs_ in rflow.stmts:
+        if not (isinstance(rs_, ast.Raise) and rs_.exc is not None and "ValueError" in norm(rs_.exc)):
+            continue
+        chain = guard_chain(rs_)
+        tests = [t_ for t_, pol_ in chain if pol_]
+        if not tests or len(tests) != len(chain):
+            continue
+        joined = " and ".join(str(norm(t_)) for t_ in tests)
+        if not (("%s.shape" % ytau in joined or "np.shape(%s)" % ytau in joined)
+                and any(isinstance(c_, ast.Compare) and isinstance(c_.ops[0], ast.NotEq) for t_ in tests for c_ in ast.walk(t_))):
+            continue
+        outer = rs_
+        while parent(outer) is not f.node:
+            outer = parent(outer)
+        if isinstance(outer, ast.If) and all(rflow.cfg.dominated_by(n_, set(rflow.cfg.nodes(outer))) for n_ in rflow.cfg.nodes(rst)):
+            class _G:
+                pass
+            g_ = _G()
+            g_.test = ast.parse(joined, mode="eval").body
+            guards.append(g_)
     ctx.ob("quantile_score.row_guard", bool(guards), "guards before `%s`: %s" % (norm(rst)[:50], [norm(g_.test)[:80] for g_ in guards] or "none"),
            "an estimate array of two or more dimensions whose rows do not have one entry per quantile fraction is rejected with ValueError (reshape(-1, k) would re-chunk it silently)",
            node=rst, func=f, witness=None if guards else {"y_tau.shape": [3, 7], "taus": 3, "y_test": 7, "accepted as": "7 rows of 3 scrambled estimates"})
